@@ -2020,6 +2020,10 @@ class Interp:
         return self.binop(e.op, self.eval(e.left, env), self.eval(e.right, env), e)
 
     def binop(self, op, a, b, node=None):
+        if isinstance(op, (ast.BitAnd, ast.BitOr, ast.Sub, ast.BitXor)) and (isinstance(a, DictView) or isinstance(b, DictView)) and all(isinstance(v, (SetVal, DictView)) for v in (a, b)):
+            # keys() / items() views are set-like
+            a = self._mkset(a.items) if isinstance(a, DictView) else a
+            b = self._mkset(b.items) if isinstance(b, DictView) else b
         if isinstance(a, SetVal) and isinstance(b, SetVal) and isinstance(op, (ast.BitAnd, ast.BitOr, ast.Sub, ast.BitXor)):
             return self._set_op({ast.BitAnd: "&", ast.BitOr: "|", ast.Sub: "-", ast.BitXor: "^"}[type(op)], a, b)
         if isinstance(op, ast.Pow) and isinstance(a, Lin) and isinstance(b, Lin) and b.is_const() and b.const == Fraction(1, 2):
